@@ -202,14 +202,14 @@ func runC18(c *Ctx) {
 	subD := `%b\.subscriptions\[%msg\.Subscription\],ok#0`
 	c.Reach(r4, su, "on_unsubscribe precedes on_delete", ReachSpec{Stop: onUnsub, Target: onDel, Want: false})
 	c.Guard(r4, su, "on_delete", onDel, 1, clause("last subscriber left", T(`^\(call:builtin:len\(`+subD+`\.subscribers\) == 0\)$`)),
-		clause("subscription not retained for history", F(`^call:router\.\(\*broker\)\.syncKeepsHistory\(%b, `+subD+`\)$`)))
+		clause("subscription not retained for history", F(`^call:router\.\(\*broker\)\.syncKeepsHistory\(%b, `+subD+`\)$`), F(`^%b\.eventHistoryStore\[`+subD+`\],ok#1$`)))
 	c.Reach(r4, su, "on_delete only after the subscription was deleted", ReachSpec{Stop: `^call:router\.\(\*broker\)\.syncDelSubscription\(%b, ` + subD + `\)$`, Target: onDel, Want: false})
 	c.Reach(r4, su, "no meta event on the error path", ReachSpec{From: `^call:router\.\(\*broker\)\.trySend\(%b, %subscriber, new\(wamp\.Error\)\)$`, Target: `^call:router\.\(\*broker\)\.syncPubSubMeta\(`, Want: false})
 	c.Reach(r4, ss, "SUBSCRIBED for an existing membership announces nothing", ReachSpec{
 		FromEdge: &ir.Clause{Name: "already", Edges: []ir.EdgeSpec{T(`^` + initSub + `#0\.subscribers\[%subscriber\],ok#1$`)}}, Target: `^call:router\.\(\*broker\)\.syncPubSub`, Want: false})
 	brs := brk + "syncRemoveSession"
 	c.Guard(r4, brs, "on_delete on departure", `^call:router\.\(\*broker\)\.syncPubSubMeta\(%b, "wamp\.subscription\.on_delete", `, 1,
-		clause("last subscriber left", T(`^\(call:builtin:len\(.*\.subscribers\) == 0\)$`)), clause("not retained for history", F(`^call:router\.\(\*broker\)\.syncKeepsHistory\(`)))
+		clause("last subscriber left", T(`^\(call:builtin:len\(.*\.subscribers\) == 0\)$`)), clause("not retained for history", F(`^call:router\.\(\*broker\)\.syncKeepsHistory\(`), F(`^%b\.eventHistoryStore\[.*\],ok#1$`)))
 	for _, m := range []string{"syncPubSubMeta", "syncPubSubCreateMeta"} {
 		f := brk + m + "$1"
 		c.Guard(r4, f, "meta event delivery", `^call:router\.\(\*broker\)\.trySend\(`, 2, clause("not echoed to the causing session", F(`^\(\^subSessID == range\(%metaSub\.subscribers\)#k\.ID\)$`)))
